@@ -181,6 +181,33 @@ def sets_body(kind):
                     if a.assumption is not None:
                         conds.append(env.eq(b.assumption, a.assumption + a.sigma * dr))
                     env.claim("sample_perturbs|%s|%s|%s>%s" % (gname, nm, srcpop, dst), env.all(conds), key="parset_sample_links")
+            elif kind.startswith("program_field:"):
+                # every dated quantity of a program (spending, unit cost, capacity constraint, saturation, coverage) is sampled from
+                # its own values: copy = source + sigma x draw, the other fields of the copy equal the source's
+                field = kind.split(":")[1]
+                src = copy.deepcopy(P.progsets[0])
+                prog = list(src.programs.values())[0]
+                fields = ("spend_data", "unit_cost", "capacity_constraint", "saturation", "coverage")
+                given = {}
+                for f in fields:
+                    ts = getattr(prog, f)
+                    if f == field or not ts.has_data:
+                        a = env.real("value|%s" % f, 0.01, 100)
+                        setattr(prog, f, au.TimeSeries(assumption=a, units=ts.units, sigma=env.real("sigma|%s" % f, 0, 2) if f == field else None))
+                    given[f] = getattr(prog, f)
+                before = _numbers(src)
+                new = src.sample()
+                after = _numbers(src)
+                nprog = list(new.programs.values())[0]
+                for f in fields:
+                    a, b = given[f], getattr(nprog, f)
+                    d = (a.sigma * stub.draws[0]) if f == field else 0.0
+                    conds = [env.true(len(a.vals) == len(b.vals))] + [env.eq(y, x + d) for x, y in zip(a.vals, b.vals)]
+                    if a.assumption is not None:
+                        conds.append(env.true(b.assumption is not None) & (env.eq(b.assumption, a.assumption + d) if b.assumption is not None else env.true(False)))
+                    else:
+                        conds.append(env.true(b.assumption is None))
+                    env.claim("sampled_program_%s_comes_from_its_own_values" % f, env.all(conds), key="program_field_sample")
             elif kind == "parset":
                 src = copy.deepcopy(P.parsets[0])
                 targets = []
@@ -299,6 +326,8 @@ def specs(tier):
     out.append(("parset_sample[udt]", sets_body, dict(kind="parset")))
     out.append(("parset_sample[M11;transfers and interactions]", sets_body, dict(kind="parset_links")))
     out.append(("progset_sample[udt]", sets_body, dict(kind="progset")))
+    for f in ("spend_data", "unit_cost", "capacity_constraint", "saturation", "coverage"):
+        out.append(("program_sample[udt;sigma on %s]" % f, sets_body, dict(kind="program_field:" + f)))
     out.append(("run_sampled_sim[parset only]", runner_body, dict(with_progset=False)))
     out.append(("run_sampled_sim[with progset]", runner_body, dict(with_progset=True)))
     return out
